@@ -11,6 +11,7 @@ R4  no unbounded re-sleep: inside one wait the cancellable sleep is entered only
     primitive that receives the caller's abs_deadline and cancel_note.
 R5  once the note is notified no further wake-up is needed: the waiter registers on the cancel note only after re-reading the note's state under note_mu.
 R6  ... and it always registers: every path to a sleep of the cancellable wait (note non-NULL, found un-notified) has put the record on the note's list.
+R7  ETIMEDOUT originates only in the timed semaphore wait, under wait result == -1, errno == ETIMEDOUT and deadline <= now (= C12.R3).
 Wall-clock promptness is not decided."""
 from .. import util, mumodel, ir as IR
 from ..bounds import _guards, _norm_cmp
@@ -173,6 +174,13 @@ def run(ctx, rep):
                                       site='nsync_sem_wait_with_cancel_/unregistered-sleep'))
     if n6 == 0:
         raise AnalysisBroken('C05.R6: no sleep found in the cancellable wait')
+    # ---- R7: "ETIMEDOUT only if the deadline has been reached": the only source of ETIMEDOUT in both wait families is the timed semaphore wait
+    # (R2 / R4 above: the result code is that call's, converted at most to ECANCELED); there it may be defined only where the kernel wait failed
+    # with errno ETIMEDOUT *and* the clock has been re-read and agrees (an interrupted or early-returning kernel wait must loop) - same guard
+    # rule as C12.R3, judged here for the wait families' contract
+    from . import C12
+    rep.rule('C05.R7', 'ETIMEDOUT originates only where the kernel wait timed out and the re-read clock has reached the deadline')
+    C12.check_timeout_guards(mod, K, rep, 'C05.R7')
     rep.floor('C05.R1', 10)
     rep.floor('C05.R3', 4)
     rep.assumptions += ['wall-clock promptness is not decided', 'C12/C15 decide when the semaphore wait itself reports ETIMEDOUT']
